@@ -22,6 +22,7 @@ RULE = ("the interleaved event log (consumer step, pull(src,pos), end(src), call
 RULE += (' Also: ONE iterator passed as several arguments; sized containers (list, tuple) among one-shot iterators; groupby with a key that fails once while the consumer carries on; a plain list changed (append/pop/replace/insert/clear) while the tool is part-way through it; group handles closed.')
 RULE += (' Also: key / reduction calls of min, max, reduce (full interleaving with pulls) and sorted, nlargest, nsmallest (call sequence).')
 RULE += (' Also: cycle over a list that is changed after the first pass.')
+RULE += (" Also: after a tool was closed early the caller's synchronous one-shot iterators still yield everything that was not taken.")
 ASSUMPTIONS = ["stdlib 3.12 is the reference; events compared are exactly pulls, end checks, calls, yields",
                "generator-flavoured sources are compared with generator twins (a pull after exhaustion is invisible there)",
                "accumulate([]) without initial: only the pull/end events before the documented TypeError are compared"]
@@ -296,6 +297,32 @@ def run_case(case, stats: Counter):
                       "msg": f"{tool} {spec['params']} srcs={spec['srcs']} flav={flav}: logs differ at event {d}: "
                              f"stdlib {exp[d] if d < len(exp) else None} vs asyncstdlib {got[d] if d < len(got) else None}",
                       "detail": {"expected": exp[max(0, d - 6):d + 3], "got": got[max(0, d - 6):d + 3]}})
+    if sync.term == ("open",) and not viols and not ops and hasattr(asy.handle, "aclose") and \
+            any(f in ("sync_gen", "sync_iter") for f in flav):
+        # the consumer stops early and closes the tool: a synchronous one-shot iterator it had handed in is the caller's -
+        # like the counterpart's, it still holds whatever the tool did not take (the tool does not close it)
+        async def close_tool():
+            await asy.handle.aclose()
+        try:
+            drive(close_tool())
+        except BaseException:  # noqa: BLE001
+            pass
+        for i, f in enumerate(flav):
+            if f not in ("sync_gen", "sync_iter") or i >= len(asy.sources) or any(asy.sources[j] is asy.sources[i] for j in range(i)):
+                continue
+            st_i = asy.srcs[i]
+            want_rest = [canon(x) for x in st_i.items[st_i.pos:]]
+            try:
+                got_rest = [canon(x) for x in asy.sources[i]]
+            except BaseException as exc:  # noqa: BLE001
+                got_rest = repr(exc)
+            stats["rest_of_sync_iterators_probed_after_early_close"] += 1
+            if got_rest != want_rest:
+                viols.append({"key": f"{tool}/rest-of-the-input-iterator-lost",
+                              "msg": f"{tool} {spec['params']} srcs={spec['srcs']} flav={flav}: the tool was closed after "
+                                     f"{steps} steps; the caller's iterator {i} then gives {got_rest}, {len(want_rest)} "
+                                     f"unconsumed items were expected"})
+                break
     nontrivial = pulls > 0 and (ends > 0 or calls > 0 or sync.term == ("open",))
     return {"violations": viols, "nontrivial": nontrivial, "sig": (spec, flav, case.get("fnfl"))}
 
